@@ -23,8 +23,7 @@ def replay(payload):
         if "C08" == "C06":
             oracle_c06_inject(chk, cc, res["inject"][0])
     else:
-        print("replay: re-run the check itself for this record")
-        return 1
+        return "RERUN"      # vcheck re-runs the check with the recorded tier and seed and looks for the same violation
     for path, found, pl in chk.violations:
         print(f"VIOLATION property=C08 replay={path}")
     import shutil
